@@ -65,6 +65,8 @@ def plan(tier, seed):
         shards.append(("getind", ui, 4 if tier == "quick" else 5))
     for ui in range(NUBI):
         shards.append(("reassign", ui, 3 if tier == "quick" else 4))
+    for ui in range(NUBI):
+        shards.append(("indexer_refine", ui))
     shards.append(("exact",))
     shards.append(("callers",))
     shards.append(("rgrefine",))
@@ -341,6 +343,52 @@ def _run_getind(desc):
     return sh
 
 
+def _run_indexer_refine(desc):
+    """indexer.refine (the python reference behind the indexer's reports): least squares over exactly the peaks that are within hkl_tol AND
+    assigned to a ring (ring assignment is the label here) - peaks within tolerance that sit on no ring (a second phase, a forbidden
+    position) do not enter; the count reported afterwards is that of the refined matrix"""
+    _, ui = desc
+    from ImageD11 import indexing
+    indexing.loglevel = 4
+    sh = Shard()
+    ubi, gen = ubis()[ui]
+    P = peaks_for(gen)
+    gv = np.ascontiguousarray(np.concatenate([P, -P[:12], 1.37 * P[5:15]]))
+    n = len(gv)
+    tol = 0.05
+    patterns = {"all-on-rings": np.zeros(n, int), "every-third-off": np.where(np.arange(n) % 3 == 1, -1, 2),
+                "first-ten-off": np.where(np.arange(n) < 10, -1, 1), "only-eight-on": np.where((np.arange(n) * 5) % n < 8, 0, -1)}
+    for pname, ra in patterns.items():
+        for t in (np.ascontiguousarray(ubi), np.ascontiguousarray(np.dot(ubi, O.rotation_from_axis_angle((1, 0, 0), 0.1).T))):
+            o0 = oracle(t, gv, tol)
+            if "sel" not in o0:
+                sh.borderline += 1
+                continue
+            sel = o0["sel"] & (ra > -1)
+            o = oracle(t, gv, 0.0, sel=sel)
+            case = {"kind": "indexer_refine", "ubi": ui, "rings": pname}
+            if o.get("status") != "ok" or sel.sum() == 0:
+                sh.borderline += 1
+                continue
+            ind = indexing.indexer(unitcell=None, gv=gv.copy(), hkl_tol=tol)
+            ind.ra = ra.copy()
+            got = ind.refine(t.copy())
+            if not np.allclose(got, o["ubi"], rtol=1e-7, atol=o.get("atol", 0.0)):
+                sh.violation("indexer.refine:not-the-least-squares-fit-over-the-indexed-peaks-on-rings", case,
+                             {"got": got, "expected": o["ubi"], "peaks_in_fit": int(sel.sum()), "within_tol_off_rings": int((o0["sel"] & (ra < 0)).sum())})
+                continue
+            after = oracle(np.asarray(got, float), gv, tol)
+            if "sel" in after and ind.scorelastrefined != int((after["sel"] & (ra > -1)).sum()):
+                sh.violation("indexer.refine:scorelastrefined", case, {"got": int(ind.scorelastrefined), "expected": int((after["sel"] & (ra > -1)).sum())})
+                continue
+            sh.evaluations += 1
+            if (o0["sel"] & (ra < 0)).any():
+                sh.nontrivial += 1
+            sh.outcomes.add(("indexer_refine", pname))
+    sh.sample(case, limit=1)
+    return sh
+
+
 def _run_reassign(desc):
     """assign / the matrix changes / assign again with the SAME label on ONE labels array (an iterative fit): for every sequence
     (length <= 3, thorough 4) over 5 trial matrices, after every call the peaks carrying the label are exactly the peaks within the
@@ -527,7 +575,7 @@ def _run_rgrefine(desc):
 
 
 def run_shard(desc):
-    return {"reassign": _run_reassign, "callers": _run_callers, "exact": _run_exact, "rgrefine": _run_rgrefine, "multi": _run_multi, "assigned": _run_assigned, "long": _run_long, "getind": _run_getind}[desc[0]](desc)
+    return {"indexer_refine": _run_indexer_refine, "reassign": _run_reassign, "callers": _run_callers, "exact": _run_exact, "rgrefine": _run_rgrefine, "multi": _run_multi, "assigned": _run_assigned, "long": _run_long, "getind": _run_getind}[desc[0]](desc)
 
 
 def replay(case):
@@ -547,6 +595,8 @@ def replay(case):
         sh.violations = [v for v in _run_exact(("exact",)).violations if v["case"]["tol"] == case["tol"] and v["case"]["scale"] == case["scale"]]
     elif case["kind"] == "rgrefine":
         sh.violations = [v for v in _run_rgrefine(("rgrefine",)).violations if v["case"]["ubi"] == case["ubi"]]
+    elif case["kind"] == "indexer_refine":
+        sh.violations = [v for v in _run_indexer_refine(("indexer_refine", case["ubi"])).violations if v["case"]["rings"] == case["rings"]]
     elif case["kind"] == "reassign":
         sh.violations = _run_reassign(("reassign", case["ubi"], len(case["sequence"]))).violations
     elif case["kind"] == "getind":
